@@ -275,6 +275,18 @@ def pset_scripts(ctx):
         if r.random() < 0.25: L.append("pnew")          # else the set works on the parameter left by the previous ones
         L.append("pset %s %s %s" % (ty, ",".join(map(str, dims)) or "-", vals))
         g.count("pset_%s_%dd_%s" % (ty, nd, "match" if cnt == prod else "mismatch"))
+    # small shapes x EVERY count from 0 to twice the product + 2 (a count between the product and its double that every
+    # dimension divides is where a division-based consistency test goes wrong)
+    for dims in ([2, 2], [3, 3], [2, 4], [2, 2, 2], [2, 3], [4], [1, 5], [2, 0], [3, 1, 2], [6, 2], [2, 2, 3]):
+        prod = 1
+        for d in dims: prod *= d
+        for cnt in range(0, 2 * prod + 3):
+            for ty in ("I", "F", "C") if cnt % 3 == 0 or not ctx.quick else (("I", "F", "C")[cnt % 3],):
+                if ty == "I": vals = ",".join(str((7 * k) % 100) for k in range(cnt)) or "-"
+                elif ty == "F": vals = ",".join("3f800000" for _ in range(cnt)) or "-"
+                else: vals = ",".join(gen.xhex(b"s%d" % k) for k in range(cnt)) or "-"
+                L.append("pnew"); L.append("pset %s %s %s" % (ty, ",".join(map(str, dims)), vals))
+                g.count("pset_sweep_%s" % ("match" if cnt == prod else "mismatch"))
     # overflow shapes (size_t product wraps only beyond 2^64: must be refused when the count differs)
     for dims in ("128,128,128,128,128", "65536,65536", "4294967296,4294967296", "255,255,255,255,255,255,255"):
         L.append("pset I %s -" % dims); L.append("pset F %s 3f800000" % dims)
